@@ -317,9 +317,19 @@ where
     }
 
     fn snapshot(&self) -> String {
-        self.mref.with_manager_shared(|m| {
-            let hs: Vec<(usize, &<F::Manager<'_> as Manager>::Edge)> =
+        // exclusive access: a background garbage collection (which runs under
+        // the shared lock) can not interleave with the dump
+        self.mref.with_manager_exclusive(|m| {
+            let m = &*m;
+            let mut hs: Vec<(usize, &<F::Manager<'_> as Manager>::Edge)> =
                 self.slots.iter().map(|(k, f)| (*k, f.as_edge(m))).collect();
+            // the replacement functions held by live substitution objects are handles, too
+            for (sid, s) in &self.substs {
+                use oxidd::Substitution;
+                for (i, (_, r)) in s.pairs().enumerate() {
+                    hs.push((1_000_000 + sid * 100 + i, r.as_edge(m)));
+                }
+            }
             snapshot(m, &hs, &|t| F::fmt_term(t))
         })
     }
@@ -539,6 +549,47 @@ where
                     write!(s, " {k}={v}").unwrap();
                 }
                 Ok(s)
+            }
+            "FILL" => {
+                // capacity probe: create single-node functions x0 ? a : b (a, b
+                // independent of x0, all kept alive) until the manager reports
+                // out-of-memory; needs >= 4 variables
+                if self.nvars() < 4 {
+                    return Err("skip".into());
+                }
+                let res: Result<(usize, usize, usize, bool), String> = self.mref.with_manager_shared(|m| {
+                    let x = |v: VarNo| oom(F::var(m, v));
+                    let (x0, x1, x2, x3) = (x(0)?, x(1)?, x(2)?, x(3)?);
+                    let mut base: Vec<F> = vec![F::f(m), F::t(m), x1.clone(), x2.clone(), x3.clone()];
+                    for (a, b) in [(&x1, &x2), (&x2, &x3), (&x1, &x3)] {
+                        base.push(oom(a.and(b))?);
+                        base.push(oom(a.or(b))?);
+                        base.push(oom(a.xor(b))?);
+                    }
+                    for v in [&x1, &x2, &x3] {
+                        base.push(oom(v.not())?);
+                    }
+                    let before = m.num_inner_nodes();
+                    let mut keep: Vec<F> = Vec::new();
+                    let mut hit = false;
+                    'outer: for i in 0..base.len() {
+                        for j in 0..base.len() {
+                            if i == j {
+                                continue;
+                            }
+                            match x0.ite(&base[i], &base[j]) {
+                                Ok(f) => keep.push(f),
+                                Err(_) => {
+                                    hit = true;
+                                    break 'outer;
+                                }
+                            }
+                        }
+                    }
+                    Ok((before, keep.len(), m.num_inner_nodes(), hit))
+                });
+                let (before, created, at_end, hit) = res?;
+                Ok(format!("before={before} created={created} inner_at_end={at_end} oom={}", hit as u8))
             }
             "CLONE" => {
                 let f = self.get(tok[2])?.clone();
